@@ -46,7 +46,7 @@ def new_event(t, k, src, m=(), how='-'):
     return {'t': t, 'k': k, 'src': src, 'm': list(m), 'how': how, 'outcome': 'ok', 'exc': '', 'hasPre': False, 'pre': [],
             'hasObs': False, 'obs': [], 'all': [], 'ret': [], 'eff': [], 'hasRef': False, 'res': '', 'ref': '',
             'solo': {'has': False, 'det': False, 'outcome': '', 'exc': '', 'obs': [], 'ret': [], 'eff': [], 'res': ''},
-            'regOk': False, 'reg': [], 'expect': {'has': False, 'store': []}, 'heap': [], 'reps': []}
+            'regOk': False, 'reg': [], 'expect': {'has': False, 'store': []}, 'heap': [], 'reps': [], 'q': '-', 'node': 0}
 
 
 def fill(ev, r):
@@ -57,6 +57,8 @@ def fill(ev, r):
     ev['hasObs'], ev['obs'] = True, r.get('obs', [])
     ev['ret'], ev['eff'], ev['res'] = r.get('ret', []), r.get('eff', []), r.get('res', '')
     ev['heap'], ev['reps'] = r.get('heap', []), r.get('reps', [])
+    if 'ref' in r:
+        ev['hasRef'], ev['ref'] = True, r['ref']
     if r.get('reg') is not None:
         ev['regOk'], ev['reg'] = True, r['reg']
     if 'desc' in r:
@@ -217,6 +219,36 @@ class Concretiser:
 
 
 # ----------------------------------------------------------------------------------------------------------------------
+# read-only consumers on long-lived nodes
+
+def read_kwargs(rng, q, names=None):
+    """A per-call value for one of the options read `q` is sensitive to (valid, preferably not the default)."""
+    name = C.READS[q][0]
+    sens = [o for o in C.READ_SENSITIVE[name] if o in C.READS[q][2]]
+    if not sens:
+        return {}
+    o = rng.choice(sens)
+    return {o: rng.choice(C.VALID[o][1:] if rng.random() < 0.85 else C.VALID[o])}
+
+
+def read_cmds(rng, tree, prefer=()):
+    """[default, per-call value, default] (or a shorter variation) of one read on the same long-lived node."""
+    qs = [i for i, rd in enumerate(C.READS) if set(C.READ_SENSITIVE[rd[0]]) & set(prefer)] if prefer else []
+    q = rng.choice(qs) if qs and rng.random() < 0.7 else rng.randrange(len(C.READS))
+    pat = rng.choice(('dpd', 'dpd', 'pd', 'dp', 'd', 'p', 'pp'))
+    return [{'k': 'read', 'tree': tree, 'q': q, 'kw': read_kwargs(rng, q) if ch == 'p' else {}} for ch in pat]
+
+
+def read_event(t, src, c, r):
+    name, _, params, _ = C.READS[c['q']]
+    kw = {k: v for k, v in c['kw'].items() if k in params}
+    ev = fill(new_event(t, 'read', src, C.mjson(kw)), r)
+    ev['q'], ev['node'] = name, 1
+    ev['cmd'] = {'k': 'read', 'tree': c['tree'], 'q': name, 'kw': {n: C.vrepr(v) for n, v in kw.items()}}
+    return ev
+
+
+# ----------------------------------------------------------------------------------------------------------------------
 # step controller
 
 class Controller:
@@ -263,6 +295,7 @@ def replay_option_behaviour(beh: list, rng: random.Random, trace_id: int, reglog
     """One OptionsSim behaviour against real threads; returns a trace for OptionsTrace."""
     cz = Concretiser(rng, trace_id=trace_id)
     specs = cz.all_specs()
+    C.shared_tree(new=True)
     ctl = Controller(reglog)
     tnum = {'t1': 1, 't2': 2, 't3': 3}
     steps = []
@@ -325,6 +358,18 @@ def replay_option_behaviour(beh: list, rng: random.Random, trace_id: int, reglog
             post = [p for p in last.get('post', []) if p['t'] == a['t']]
             if post and steps and steps[-1]['t'] == t and k != 'die':
                 steps[-1]['expect'] = {'has': True, 'store': C.pairs(cz.store(post[0]['store'], t))}
+            if k != 'die' and t in ctl.w and rng.random() < 0.4:
+                # read-only consumers on the shared long-lived tree: this thread, then sometimes another one
+                cmds = read_cmds(rng, 'shared', prefer=list(cz.opt.values()))
+                for c in cmds:
+                    steps.append(read_event(t, SRC, c, ctl.send(t, c)))
+                others = [u for u in ctl.w if u != t]
+                if others and rng.random() < 0.5:
+                    u = rng.choice(others)
+                    c = dict(cmds[0], kw={})
+                    steps.append(read_event(u, SRC, c, ctl.send(u, c)))
+                    c = dict(cmds[-1])
+                    steps.append(read_event(t, SRC, c, ctl.send(t, c)))
             i += 1
         # leave every block that is still open, then end the threads
         for t in sorted(ctl.w):
@@ -394,9 +439,9 @@ def gen_script(rng: random.Random, n: int, flavour: str, ntrees: int, pool=None)
     cmds = []
     depth = 0
     names = C.EDIT_STORE_OPTS if flavour == 'mixed' else C.OPTION_NAMES
-    w = {'opts': (('call', 30), ('set', 25), ('enter', 22), ('exit', 23)),
+    w = {'opts': (('call', 24), ('set', 22), ('enter', 20), ('exit', 20), ('read', 14)),
          'storm': (('set', 50), ('enter', 25), ('exit', 25)),
-         'mixed': (('edit', 45), ('call', 10), ('set', 15), ('enter', 15), ('exit', 15))}[flavour]
+         'mixed': (('edit', 42), ('call', 8), ('set', 15), ('enter', 15), ('exit', 14), ('read', 6))}[flavour]
     kinds = [k for k, c in w for _ in range(c)]
     for _ in range(n):
         k = rng.choice(kinds)
@@ -404,7 +449,9 @@ def gen_script(rng: random.Random, n: int, flavour: str, ntrees: int, pool=None)
             k = 'enter'
         if k == 'enter' and depth >= 5:
             k = 'exit'
-        if k == 'edit':
+        if k == 'read':
+            cmds += read_cmds(rng, 'own')
+        elif k == 'edit':
             cmds.append({'k': 'edit', 'tree': rng.randrange(ntrees), 'seed': rng.randrange(1 << 30)})
         elif k == 'call':
             kw, unknown, bad = rand_kwargs(rng, C.OPTION_NAMES, call=True, pool=pool)
@@ -489,8 +536,11 @@ def stress(seed: int, nthreads: int, nsteps: int, flavour: str, corpus: list, re
             if k == 'edit' and not C.classifiable(kw):
                 kw = {}     # per-call options of the shared edit driver outside the documented tables: not judged
             m = C.mjson(kw, c.get('unknown', ()), pool)
-            ev = fill(new_event(t, k, SRC, m, how=c.get('how', '-')), r)
-            ev['cmd'] = {kk: (vv if kk != 'kw' else {n: C.vrepr(v) for n, v in vv.items()}) for kk, vv in c.items()}
+            if k == 'read':
+                ev = read_event(t, SRC, c, r)
+            else:
+                ev = fill(new_event(t, k, SRC, m, how=c.get('how', '-')), r)
+                ev['cmd'] = {kk: (vv if kk != 'kw' else {n: C.vrepr(v) for n, v in vv.items()}) for kk, vv in c.items()}
             if k == 'spawn':
                 ev['hasPre'] = False
             if i < len(sa) and i < len(sb):
